@@ -721,6 +721,8 @@ func intValueFromInt(msg protoreflect.Message, val intable) (fhir.Base, error) {
 			}
 			intValue = protoreflect.ValueOfUint32(uint32(val.GetValue()))
 		default:
+			// the target is not integer-valued: nothing to normalize
+			return nil, nil
 		}
 		container.Set(valueField, intValue)
 		return container.Interface(), nil
